@@ -67,6 +67,15 @@ Definition in_class (g : graph) : bool :=
   | Err _ => false
   end.
 
+(** general form: kb1 = first ligand's KEY is smaller than its anchor's, wb1 / wb2 = the ligand is WRITTEN
+    before its anchor.  pysmiles' table uses kb1 for wb1 and `false` for wb2; it gives the geometric relation
+    of the marks iff this is false *)
+Definition table_broken (kb1 wb1 wb2 : bool) : bool := xorb (negb (Bool.eqb kb1 wb1)) wb2.
+(** the conflict test on flags: two ligands of one anchor on the same side (flag-wise) need different
+    tokens, on different sides the same token *)
+Definition conflict_free (b1 b2 : bool) (t1 t2 : pyval) : bool :=
+  if Bool.eqb b1 b2 then negb (pyval_eqb t1 t2) else pyval_eqb t1 t2.
+
 (** a renumbering applied structurally: same node order, same adjacency order *)
 Definition rename_adj (f : Z -> Z) (l : list (Z * attrs)) : list (Z * attrs) :=
   map (fun wa => (f (fst wa), snd wa)) l.
